@@ -58,4 +58,96 @@ theorem phase2_cov (n : Lock) (tr : Option Lock) (ls : List Lock) (b : Nat)
   all_goals simp_all +zetaDelta
   all_goals grind
 
+
+theorem TrOk.congr {L : List Lock} {n n' x : Lock} (h : TrOk L n x)
+    (h1 : n'.owner = n.owner) (h2 : n'.ty = n.ty) (h3 : n'.stop = n.stop) : TrOk L n' x := by
+  unfold TrOk at *; rw [h1, h2, h3]; exact h
+
+theorem phase2_tr (L : List Lock) (n : Lock) (tr : Option Lock) (ls : List Lock)
+    (hp : ls.Pairwise Rel) (htr : HTr n tr ls)
+    (hin : ∀ x, tr = some x → TrOk L n x) (hsub : ∀ e ∈ ls, e ∈ L) :
+    ∀ x, (phase2 n tr ls).2.2.2 = some x → TrOk L (phase2 n tr ls).2.2.1 x := by
+  fun_induction phase2 n tr ls
+  case case1 => simpa using hin
+  case case2 => simpa using hin
+  case case3 n tr s rest h1 h2 h3 ih =>
+    have : tr = none := by
+      cases tr with
+      | none => rfl
+      | some x => have := htr rfl s (by simp) h2; omega
+    subst this
+    exact ih hp.of_cons (by simp [HTr]) (by simp) (fun e he => hsub e (by simp [he]))
+  case case4 n tr s rest h1 h2 h3 h4 ih =>
+    have : tr = none := by
+      cases tr with
+      | none => rfl
+      | some x => have := htr rfl s (by simp) h2; omega
+    subst this
+    exact ih hp.of_cons (by simp [HTr]) (by simp) (fun e he => hsub e (by simp [he]))
+  case case5 n tr s rest h1 h2 h3 h4 ih =>
+    rw [List.pairwise_cons] at hp
+    refine ih hp.2 ?_ ?_ (fun e he => hsub e (by simp [he]))
+    · intro _ e he ho
+      have := (hp.1 e he).2.1 (by omega)
+      omega
+    · intro x hx
+      simp at hx; subst hx
+      exact ⟨h2, by simp; exact fun h => h4 h.symm, rfl, by simp; omega, s, hsub s (by simp), h2, rfl, rfl, by simp; omega⟩
+  case case6 n tr s rest h1 h2 r ih =>
+    exact ih hp.of_cons (fun h e he => htr h e (by simp [he])) hin (fun e he => hsub e (by simp [he]))
+
+theorem phase2_abs (n : Lock) (tr : Option Lock) (ls : List Lock)
+    (hp : ls.Pairwise Rel) (hlb : ∀ e ∈ ls, n.start ≤ e.start) (htr : HTr n tr ls) (b : Nat) :
+    abs ((phase2 n tr ls).2.2.1 :: ((phase2 n tr ls).1 ++
+          ((phase2 n tr ls).2.2.2.toList ++ (phase2 n tr ls).2.1))) n.owner b =
+      abs (n :: (tr.toList ++ ls)) n.owner b := by
+  fun_induction phase2 n tr ls
+  case case1 => rfl
+  case case2 => rfl
+  case case3 n tr s rest h1 h2 h3 ih =>
+    have : tr = none := by
+      cases tr with
+      | none => rfl
+      | some x => have := htr rfl s (by simp) h2; omega
+    subst this
+    have ih := ih hp.of_cons (fun e he => hlb e (by simp [he])) (by simp [HTr])
+    have := hlb s (by simp)
+    rw [ih]
+    simp [abs_cons]
+    grind
+  case case4 n tr s rest h1 h2 h3 h4 ih =>
+    have : tr = none := by
+      cases tr with
+      | none => rfl
+      | some x => have := htr rfl s (by simp) h2; omega
+    subst this
+    rw [List.pairwise_cons] at hp
+    have ih := ih hp.2 (fun e he => hlb e (by simp [he])) (by simp [HTr])
+    have := hlb s (by simp)
+    simp only [] at ih
+    rw [ih]
+    simp [abs_cons]
+    grind
+  case case5 n tr s rest h1 h2 h3 h4 ih =>
+    have : tr = none := by
+      cases tr with
+      | none => rfl
+      | some x => have := htr rfl s (by simp) h2; omega
+    subst this
+    rw [List.pairwise_cons] at hp
+    have ih := ih hp.2 (fun e he => hlb e (by simp [he])) (by
+      intro _ e he ho
+      have := (hp.1 e he).2.1 (by omega)
+      omega)
+    have := hlb s (by simp)
+    rw [ih]
+    simp [abs_cons]
+    grind
+  case case6 n tr s rest h1 h2 r ih =>
+    have ih := ih hp.of_cons (fun e he => hlb e (by simp [he])) (fun h e he => htr h e (by simp [he]))
+    have hc : ¬ Covers s n.owner b := fun h => h2 h.1
+    simp [abs_cons, abs_append, hc] at ih ⊢
+    simp only [r]
+    rw [ih]
+
 end BbRe.Lemmas.BRL
